@@ -678,6 +678,11 @@ pub fn wide_cut() -> Vec<String> {
         out.push(std::format!("(?((?:(a?)|x){{{}}})!|a)", n));
     }
     out.push("(?>(()|x)(()|x)(()|x)(()|x)(()|x)(()|x)(()|x)(()|x)(()|x)(()|x))!|".to_string());
+    // large counted repeats over bodies that can match empty: many pending alternatives with
+    // the same (pc, ix), told apart only by the repeat counter (seed S11-C07)
+    for p in ["(?:a?){0,20}(?!b)", "(?:a?){0,20}\\b", "(a?){0,30}\\1", "(?:a??){30}(?=)", "(?:|a){14}(?!b)", "(?:a*?){40}(?!b)", "(?:(?:(?:a??){0,2}){0,2}){0,2}(?!b)", "(?:a?){25}(?=)b?", "(?:(?=)|a){0,16}c?"].iter() {
+        out.push(p.to_string());
+    }
     out.push("(?>(?:(a?)|x)+?(?:(a?)|x){12})!|a".to_string());
     out
 }
